@@ -11,7 +11,7 @@ RULE = ('three families of cases. (big) bracketed lists of 40..600 (thorough 250
         'following more deeply indented line exceeds the page; or a forced-break document starts later on the line); '
         'existential over reproducing assignments. (value) value recipe (built-ins, subclass instances, pretty_call '
         'types, stdlib instances) whose rendering at width=ribbon=10^6 is one line of L columns must print as that same '
-        'line at width=ribbon in {L, L+1, L+2, L+7, 2L+3}. non-trivial: (doc) >= 1 direct-choice group broken and >= 1 '
+        'line at width=ribbon in {L, L+1, L+2, L+7, 2L+3} and at pages of L+37 .. L+1000 columns with a ribbon of exactly L. non-trivial: (doc) >= 1 direct-choice group broken and >= 1 '
         'flat; (value) L >= 10 and the value has a container or call; distinct by case hash')
 ASSUMPTIONS = ['the reference look-ahead reads "forced-break document starts later on that same line" broadly '
                '(any always_break reachable before the look-ahead ends justifies a break)',
@@ -20,7 +20,7 @@ BUDGET = {'quick': {'random': 9000, 'shards': 16}, 'thorough': {'random': 400000
 
 
 STRINGS = ['plain words here', "rock'n'roll all night", "it's", "''''", 'say "hi" twice "ok"', '\'"\'"\'', 'back\\slash\\', 'tab\there',
-           'line\nbreak', 'é' * 12, '', 'x' * 40, "a'b'c'd'e'f", 'q"q"q"q',
+           'line\nbreak', 'é' * 12, '', 'x' * 40, "a'b'c'd'e'f", 'q"q"q"q', 'abcdefghijkl', 'a' * 20,
            # longer than any "practical" line: the one-line form is still owed at a width that holds it
            'x' * 151, 'word ' * 40, 'y' * 149, 'z' * 150, "it's " * 50, 'w' * 400]
 
@@ -34,9 +34,12 @@ def enumerate_cases(tier):
         for leaf in (['str', s], ['bytes', s.encode('utf-8').hex()]):
             shapes = [['list', [leaf]], ['list', [leaf, ['int', 1]]], ['tuple', [leaf]], ['set', [leaf]], ['list', [['list', [['list', [leaf]]]]]],
                       ['dict', [[leaf, ['int', 1]]]], ['dict', [[['int', 1], leaf]]], ['call', 'box', [leaf], []], ['call', 'box', [['int', 1]], [['kw', leaf]]],
-                      ['fset', [leaf]], leaf]
+                      ['fset', [leaf]], leaf,
+                      # the literal as the LAST element / argument with one closing character after it
+                      ['list', [['int', 1], leaf]], ['call', 'box', [['int', 1], leaf], []], ['call', 'box', [], [['x', leaf]]],
+                      ['tuple', [['int', 1], leaf]], ['dict', [[['int', 1], ['int', 2]], [['int', 3], leaf]]], ['list', [['list', [['int', 1], leaf]]]]]
             for v in shapes:
-                for indent in (4, 1):
+                for indent in (4, 1, 8):
                     yield {'kind': 'value', 'v': v, 'indent': indent}
 
 
@@ -166,12 +169,15 @@ def oracle_value(case):
     L = len(p0.text)
     if L == 0:
         return core.skip('empty-output')
-    for w in (L, L + 1, L + 2, L + 7, 2 * L + 3):
-        p = values.pp(v, width=w, ribbon_width=w, indent=case['indent'])
+    # width = ribbon around L, and pages much wider than a ribbon of exactly L columns (the ribbon is handed to the
+    # layout as a fraction of the page: no column may get lost on the way)
+    pairs = [(w, w) for w in (L, L + 1, L + 2, L + 7, 2 * L + 3)] + [(L + 37, L), (max(101, L + 1), L), (max(140, 2 * L), L), (max(997, L + 3), L), (L + 1000, L + 1)]
+    for w, rb in pairs:
+        p = values.pp(v, width=w, ribbon_width=rb, indent=case['indent'])
         if p.exc is not None:
             return core.viol('pformat-raised', repr(p.exc))
         if p.text != p0.text:
-            return core.viol('one-liner-broken', 'one-line form (L=%d)\n%s\nat width=ribbon=%d printed as\n%s' % (L, p0.text[:400], w, p.text[:600]))
+            return core.viol('one-liner-broken', 'one-line form (L=%d)\n%s\nat width=%d ribbon=%d printed as\n%s' % (L, p0.text[:400], w, rb, p.text[:600]))
     # boundary made visible (no assertion): L-1
     below = values.pp(v, width=max(1, L - 1), ribbon_width=max(1, L - 1), indent=case['indent'])
     labels = ['value']
